@@ -1,9 +1,20 @@
-"""C08 -- decided on the shared core machinery (see checks/C01.py and lib/core.py): TLC exhaustive check of
-specs/Pipeline.tla, TLC-generated schedules (spec-mutant counterexamples + simulation) replayed into the real
-pipeline, seeded random runs, every trace validated by TLC against the monitors of specs/PipelineObs.tla.
-The scenario families emphasise what this property quantifies over."""
+"""C08 -- batcher: bounded size, bounded staleness, in-order commit, safe Stop.
+
+1. TLC: specs/BatcherProto.tla (mutex / channel / worker granularity): SizeBound (count and bytes), CommitInSeqOrder,
+   CommitOnlySent, CommitOnce, Staleness and the liveness AllCommitted hold without Stop; with Stop the pinned code
+   (send after mu.Unlock) reaches "send on closed channel" (D9, must be reproduced at design level) and the repaired order
+   (send under the lock) is safe and Stop terminates.  Plus the batcher part of specs/Pipeline.tla (see C01).
+2. Real Batcher through its public API: byte/count bounds, staleness with heartbeat-only flushes, regular/child/
+   child-parent mixes, scripted completion orders of concurrent sends -> traces validated by TLC (PipelineMon);
+   Stop racing with 8 concurrent adders in a child process (300/2000 trials).
+3. The shared pipeline scenarios of checks/C01.py with batcher-centred families.
+"""
 import importlib.util
+import json
 import os
+
+import core
+import vlib
 
 LEVEL = "model_checking"
 PID = "C08"
@@ -11,13 +22,94 @@ _spec = importlib.util.spec_from_file_location("c01", os.path.join(os.path.dirna
 _c01 = importlib.util.module_from_spec(_spec)
 _spec.loader.exec_module(_c01)
 
-FAMILIES = {
-    "C02": (("commit", 150, 800), ("pool", 40, 200)),
-    "C05": (("pool", 150, 800), ("commit", 40, 200)),
-    "C08": (("batch", 120, 600), ("commit", 60, 300)),
-    "C09": (("retry", 180, 900),),
-}
+
+def direct_scenarios(ctx, n):
+    rng = ctx.rng
+    out = []
+    for k in range(n):
+        run = 5000 + k
+        fam = k % 4
+        nev = rng.randint(1, 14)
+        kinds = ["r"] * nev
+        if fam == 0:      # byte limit only / with count
+            sc = dict(workers=rng.choice([1, 2, 3]), count=rng.choice([0, 0, 3, 5]), bytes=rng.choice([3, 5, 10, 64]), flush_ms=20,
+                      sizes=[rng.choice([1, 1, 2, 3, 7, 20, 70]) for _ in range(nev)], order=rng.choice(["fifo", "lifo", "random"]), stale=False)
+        elif fam == 1:    # completion orders of concurrent sends
+            sc = dict(workers=rng.choice([2, 3, 4]), count=rng.choice([1, 2]), bytes=0, flush_ms=10, sizes=[1] * nev,
+                      order=rng.choice(["lifo", "random"]), stale=False)
+        elif fam == 2:    # kinds
+            kinds = [rng.choice(["r", "r", "c", "p", "p"]) for _ in range(nev)]
+            sc = dict(workers=rng.choice([1, 2]), count=rng.choice([1, 2, 3]), bytes=0, flush_ms=10, sizes=[1] * nev,
+                      order=rng.choice(["fifo", "random"]), stale=False)
+        else:             # staleness: fewer events than the count limit, nothing else ever arrives
+            nev = rng.randint(1, 4)
+            kinds = ["r"] * nev
+            sc = dict(workers=rng.choice([1, 2]), count=50, bytes=0, flush_ms=rng.choice([5, 30, 80]), sizes=[1] * nev, order="fifo", stale=True)
+        if sc["count"] == 0 and sc["bytes"] == 0:
+            sc["count"] = 2
+        sc.update(run=run, name="direct-%d-%d" % (fam, run), kinds=kinds, adders=rng.choice([1, 1, 2, 3]) if fam != 3 else 1, seed=ctx.seed * 7919 + k)
+        out.append(sc)
+    return out
 
 
 def run(ctx):
-    _c01.run(ctx, pid=PID, families=FAMILIES[PID])
+    thorough = ctx.tier == "thorough"
+    ctx._core_bin = ctx.go_test_build("pipeline")
+    # 1. BatcherProto
+    ctx.tlc_expect_ok("BatcherProto", "BatcherProto_base.cfg", timeout=900, deadlock=False, name="BatcherProto/no-stop")
+    ctx.tlc_expect_ok("BatcherProto", "BatcherProto_base.cfg", timeout=900, deadlock=False,
+                      overrides={"Sizes": "{1, 2}", "BatchBytes": "3", "BatchCount": "0"}, name="BatcherProto/bytes")
+    ctx.tlc_expect_ok("BatcherProto", "BatcherProto_stop.cfg", timeout=900, deadlock=False,
+                      overrides={"SendUnderLock": "TRUE"}, name="BatcherProto/stop send-under-lock")
+    d9 = ctx.tlc("BatcherProto", "BatcherProto_stop.cfg", timeout=600, deadlock=False, name="BatcherProto/stop send-after-unlock (mutant)")
+    if d9.ok or d9.violated != "StopSafe":
+        raise vlib.Infra("spec with the send after mu.Unlock does not reach the closed-channel send (violated=%s)" % d9.violated)
+    # 2a. direct scenarios -> trace validation
+    scs = direct_scenarios(ctx, 400 if thorough else 80)
+    cases = os.path.join(ctx.scratch, "c08_cases.ndjson")
+    with open(cases, "w") as f:
+        for s in scs:
+            f.write(json.dumps(s) + "\n")
+    trace = os.path.join(ctx.scratch, "c08_trace.ndjson")
+    rc, txt = ctx.run_bin(ctx._core_bin, "^TestVerifC08Direct$", env={"VERIF_CASES": cases, "VERIF_OUT": trace}, timeout=1200)
+    if rc != 0 or not os.path.exists(trace):
+        crash = core.classify_crash(txt)
+        if crash is None:
+            raise vlib.Infra("C08 direct harness failed rc=%s:\n%s" % (rc, txt[-3000:]))
+        ctx.classify([crash])
+    else:
+        viol, nlines = core.validate(ctx, trace, maxid=16)
+        ctx.traces_validated += len(scs)
+        ctx.evaluations += len(scs)
+        by_run = {s["run"]: s for s in scs}
+        recs = core.records(viol, by_run, core.KINDS["C08"] | {"batch_bytes_exceeded", "batch_stale", "parent_sent", "not_idle", "unaccounted"})
+        stale = [r for r in recs if r["kind"] == "batch_stale"]
+        nstale = sum(1 for s in scs if s["stale"])
+        if stale and len(stale) < max(3, nstale // 2):
+            # a timing miss must reproduce broadly before it is reported
+            ctx.drift += len(stale)
+            vlib.log("warning: %d of %d staleness runs exceeded their bound (not reported)" % (len(stale), nstale))
+            recs = [r for r in recs if r["kind"] != "batch_stale"]
+        ctx.classify(recs)
+        ctx.sample(scs[0])
+    # 2b. Stop vs Add
+    out = os.path.join(ctx.scratch, "c08_stop.json")
+    rc, txt = ctx.run_bin(ctx._core_bin, "^TestVerifC08Stop$", env={"VERIF_OUT": out, "VERIF_C08_STOP": "1", "VERIF_C08_TRIALS": 2000 if thorough else 300},
+                          timeout=900)
+    if rc != 0 or not os.path.exists(out):
+        raise vlib.Infra("C08 stop harness failed rc=%s:\n%s" % (rc, txt[-3000:]))
+    st = json.load(open(out))
+    ctx.evaluations += 2000 if thorough else 300
+    ctx.extra["stop_race_trials"] = 2000 if thorough else 300
+    recs = []
+    if st["panic"]:
+        where = "trySendBatchAndUnlock" if "trySendBatchAndUnlock" in st["panic"] else "other"
+        cls = "send_on_closed_channel" if "send on closed channel" in st["panic"] else "other"
+        recs.append({"kind": "stop_panic", "panic_class": cls, "where": where, "panic": st["panic"][:600]})
+    elif not st["done"]:
+        raise vlib.Infra("stop child did not finish and did not panic: %s" % st)
+    if st["bad_commits"]:
+        recs.append({"kind": "stop_commit_of_unsent_or_twice", "count": st["bad_commits"]})
+    ctx.classify(recs)
+    # 3. shared pipeline scenarios
+    _c01.run(ctx, pid=PID, families=(("batch", 100, 500), ("commit", 40, 200)))
